@@ -469,6 +469,9 @@ structure ETx where
   version : UInt32
   lockTime : UInt32
   isFinal : Bool
+  /-- `obsolete_lockDistance`, `obsolete_lockDuration` -/
+  lockDistance : Nat
+  lockDuration : Nat
   fee : Bytes → Nat
 
 structure TapEnv where
@@ -483,6 +486,16 @@ structure TxEnv where
   genesisHash : Bytes
   ix : UInt32
 
+/-- one round of the input loop of `mallocTransaction` on `obsolete_lockDuration` (`dur = true`) or
+`obsolete_lockDistance` (`dur = false`): a sequence below `0x80000000` (relative lock enabled) raises
+the maximum of its kind (bit 22 set: duration, clear: distance) to its low 16 bits -/
+def lockStep (dur : Bool) (acc : Nat) (s : UInt32) : Nat :=
+  if s < 0x80000000 then
+    if ((s &&& 0x400000) != 0) == dur then
+      (if acc < (s &&& 0xffff).toNat then (s &&& 0xffff).toNat else acc)
+    else acc
+  else acc
+
 /-- `mallocTransaction` -/
 def buildTx (r : RawTx) : ETx :=
   { inputs := r.inputs.map copyInput
@@ -490,6 +503,8 @@ def buildTx (r : RawTx) : ETx :=
     version := r.version
     lockTime := r.lockTime
     isFinal := r.inputs.all fun i => !(i.sequence < 0xffffffff)
+    lockDistance := r.inputs.foldl (fun a i => lockStep false a i.sequence) 0
+    lockDuration := r.inputs.foldl (fun a i => lockStep true a i.sequence) 0
     fee := feeOf r.outputs }
 
 /-- `mallocTapEnv` -/
@@ -532,6 +547,12 @@ deriving DecidableEq, Repr
 inductive G0 where
   | version | lockTime | numInputs | numOutputs | currentIndex | genesisBlockHash | scriptCmr
   | internalKey | tapleafVersion | txIsFinal | txLockHeight | txLockTime
+  | txLockDistance | txLockDuration
+deriving DecidableEq, Repr
+
+/-- the four `check_lock_*` jets -/
+inductive LockKind where
+  | height | time | distance | duration
 deriving DecidableEq, Repr
 
 inductive Query where
@@ -542,6 +563,8 @@ inductive Query where
   | nullDatum (i j : UInt32)
   | tappath (i : UInt8)
   | totalFee (id : B32)
+  /-- `check_lock_*` with the number read from the input frame -/
+  | checkLock (k : LockKind) (x : Nat)
 
 /-- what `input_*` / `current_*` write for one input -/
 def inW (g : InGetter) (s : SigInput) : List Bool :=
@@ -598,6 +621,18 @@ def opcodeW (op : Opcode) : List Bool :=
 def lockHeight (t : ETx) : UInt32 := if !t.isFinal && t.lockTime < 500000000 then t.lockTime else 0
 def lockTimeOf (t : ETx) : UInt32 := if !t.isFinal && 500000000 ≤ t.lockTime then t.lockTime else 0
 
+/-- `obsolete_lockDistance` / `obsolete_lockDuration` of elementsJets.c -/
+def lockDistanceOf (t : ETx) : Nat := if 2 ≤ t.version then t.lockDistance else 0
+def lockDurationOf (t : ETx) : Nat := if 2 ≤ t.version then t.lockDuration else 0
+
+/-- the value a `check_lock_*` jet compares its argument with -/
+def lockOf (k : LockKind) (t : ETx) : Nat :=
+  match k with
+  | .height => (lockHeight t).toNat
+  | .time => (lockTimeOf t).toNat
+  | .distance => lockDistanceOf t
+  | .duration => lockDurationOf t
+
 def jet0 (g : G0) (v : TxEnv) : List Bool :=
   match g with
   | .version => u32Bits v.tx.version
@@ -612,6 +647,8 @@ def jet0 (g : G0) (v : TxEnv) : List Bool :=
   | .txIsFinal => [v.tx.isFinal]
   | .txLockHeight => u32Bits (lockHeight v.tx)
   | .txLockTime => u32Bits (lockTimeOf v.tx)
+  | .txLockDistance => natBits 16 (lockDistanceOf v.tx)
+  | .txLockDuration => natBits 16 (lockDurationOf v.tx)
 
 /-- the value a jet writes (compact bits), `none` = the jet returns false -/
 def jetC (q : Query) (v : TxEnv) : Option (List Bool) :=
@@ -625,6 +662,7 @@ def jetC (q : Query) (v : TxEnv) : Option (List Bool) :=
       optBits ((ops[j.toNat]?).map opcodeW)))
   | .tappath i => some (optBits ((v.taproot.path[i.toNat]?).map bytesBits))
   | .totalFee id => some (natBits 64 (v.tx.fee id.bytes))
+  | .checkLock k x => if x ≤ lockOf k v.tx then some [] else none
 
 /-! ### the specification: what each getter has to return, from the supplied data alone -/
 
@@ -710,6 +748,24 @@ def specFee (outs : List TxOut) (id : B32) : Nat :=
   ((outs.filter fun o => o.isFee && decide (o.asset = .explicit id)).map fun o =>
     match o.value with | .explicit v => v.toNat | _ => 0).sum % 2^64
 
+/-- BIP 68 on one sequence number: a relative lock is present when bit 31 (disable flag) is clear;
+bit 22 (type flag) says whether its low 16 bits count 512-second units (`dur = true`) or blocks -/
+def relLock (dur : Bool) (s : UInt32) : Option Nat :=
+  if s.toNat < 2^31 ∧ (((s &&& 0x400000) != 0) == dur) then some (s &&& 0xffff).toNat else none
+
+/-- the largest relative lock of the given kind over the shown inputs (0 when there is none), which
+transactions of version below 2 do not have -/
+def specRelLock (dur : Bool) (e : EnvArgs) : Nat :=
+  if 2 ≤ e.tx.version then ((e.shown.filterMap fun p => relLock dur p.1.sequence).foldr max 0) else 0
+
+/-- what the supplied data say about each kind of lock -/
+def specLock (k : LockKind) (e : EnvArgs) : Nat :=
+  match k with
+  | .height => if !e.isFinal && e.tx.lockTime < 500000000 then e.tx.lockTime.toNat else 0
+  | .time => if !e.isFinal && 500000000 ≤ e.tx.lockTime then e.tx.lockTime.toNat else 0
+  | .distance => specRelLock false e
+  | .duration => specRelLock true e
+
 def spec0 (g : G0) (e : EnvArgs) : List Bool :=
   match g with
   | .version => u32Bits e.tx.version
@@ -724,6 +780,8 @@ def spec0 (g : G0) (e : EnvArgs) : List Bool :=
   | .txIsFinal => [e.isFinal]
   | .txLockHeight => u32Bits (if !e.isFinal && e.tx.lockTime < 500000000 then e.tx.lockTime else 0)
   | .txLockTime => u32Bits (if !e.isFinal && 500000000 ≤ e.tx.lockTime then e.tx.lockTime else 0)
+  | .txLockDistance => natBits 16 (specRelLock false e)
+  | .txLockDuration => natBits 16 (specRelLock true e)
 
 def spec (q : Query) (e : EnvArgs) : Option (List Bool) :=
   match q with
@@ -736,5 +794,6 @@ def spec (q : Query) (e : EnvArgs) : Option (List Bool) :=
       optBits ((ops[j.toNat]?).map opcodeW)))
   | .tappath i => some (optBits ((e.controlBlock.merkleBranch[i.toNat]?).map fun h => bytesBits h.bytes))
   | .totalFee id => some (natBits 64 (specFee e.tx.outputs id))
+  | .checkLock k x => if x ≤ specLock k e then some [] else none
 
 end Env
